@@ -3,23 +3,24 @@
 set -e
 export GOFLAGS=-mod=mod GOPROXY=off GOSUMDB=off GOTOOLCHAIN=local CGO_ENABLED=1
 V=${VERIF_ROOT:-/verif}
+R=${VERIF_REPO:-/repo}   # the tree under test: /repo for every registered check; a scratch copy only for tools/mutsweep.py
 OUT=$V/.build
 mkdir -p $OUT
-H=$( (cd /repo && find . -name '*.go' ! -name '*_test.go' -not -path './zz_verif_harness/*' -print0 | sort -z | xargs -0 sha256sum; sha256sum go.mod go.sum) ; (cd $V/harness && sha256sum *.go) )
+H=$( (cd $R && find . -name '*.go' ! -name '*_test.go' -not -path './zz_verif_harness/*' -print0 | sort -z | xargs -0 sha256sum; sha256sum go.mod go.sum) ; (cd $V/harness && sha256sum *.go) )
 HASH=$(echo "$H" | sha256sum | cut -c1-16)
 BIN=$OUT/sgeh-$HASH
 if [ ! -x "$BIN" ]; then
   rm -f $OUT/sgeh-*
   OV=$OUT/overlay.json
-  VERIF_ROOT=$V python3 - "$OV" <<'PY'
+  VERIF_ROOT=$V VERIF_REPO=$R python3 - "$OV" <<'PY'
 import json,sys,glob,os
 rep={}
 import os as _o
 V=_o.environ.get('VERIF_ROOT','/verif')
 for f in glob.glob(V+'/harness/*.go'):
-    rep['/repo/zz_verif_harness/'+os.path.basename(f)]=f
+    rep[_o.environ.get('VERIF_REPO','/repo')+'/zz_verif_harness/'+os.path.basename(f)]=f
 json.dump({"Replace":rep},open(sys.argv[1],'w'))
 PY
-  (cd /repo && go build -ldflags "-X testing.testBinary=1" -overlay $OV -o "$BIN" ./zz_verif_harness) 1>&2
+  (cd $R && go build -ldflags "-X testing.testBinary=1" -overlay $OV -o "$BIN" ./zz_verif_harness) 1>&2
 fi
 echo $BIN
